@@ -79,7 +79,8 @@ def histories(tier, seed):
     U = [Node('a'), Node('b'), Node('c')]
     ops = [('add_node', i) for i in range(3)] + [('remove_node', i) for i in range(3)] \
         + [('add_dependency', i, j) for i in range(3) for j in range(3) if i != j] \
-        + [('remove_dependency', i, j) for i in range(3) for j in range(3) if i != j] + [('copy',), ('invert',), ('merge_self_copy',)]
+        + [('remove_dependency', i, j) for i in range(3) for j in range(3) if i != j] + [('copy',), ('invert',), ('merge_self_copy',)] \
+        + [('add_dependency', 0, 0), ('remove_dependency', 0, 0)]          # a node may depend on itself in the mathematical graph
     L = 3 if tier == 'quick' else 4
     seqs = list(itertools.product(ops, repeat=L))
     rng = random.Random(seed)
@@ -153,7 +154,7 @@ def histories(tier, seed):
             if len(fails) >= 6:
                 break
     return {'name': 'depgraph-edit-histories', 'evaluations': n, 'distinct': n, 'failures': fails, 'exhaustive': False,
-            'bound': f'all histories of length {L} over 3 nodes and 23 operations (exhaustive) + {len(extra)} seeded histories of length 5-7; '
+            'bound': f'all histories of length {L} over 3 nodes and 25 operations, self-dependency included (exhaustive) + {len(extra)} seeded histories of length 5-7; '
                      'after every step nodes / dependencies / dependees / iteration / membership / len are compared with a plain model; '
                      'copies, inverses and merges are re-checked after the whole history',
             'samples': [[list(o) for o in seqs[len(seqs) // 2]]]}
@@ -359,13 +360,61 @@ def flatten_cases(tier, seed):
                                   'expected': 'plain nodes only, same ordering constraints (reachability) between plain nodes'})
                     if len(fails) >= 6:
                         return _fl(cnt, fails)
+    # graphs nested twice: flattening a COPY gives the plain ordering and leaves the originals (outer, middle and inner graphs) as they were
+    for inner_edge, mid_edge, out_edge in itertools.product((False, True), repeat=3):
+        cnt += 1
+        r0, r1, q0, p0 = Node('r0'), Node('r1'), Node('q0'), Node('p0')
+        def build(a, b, edge):
+            g = DepGraph()
+            g.add_node(a)
+            g.add_node(b)
+            if edge:
+                g.add_dependency(a, on=b)
+            return g
+        inner = build(r0, r1, inner_edge)
+        middle = build(q0, inner, mid_edge)
+        outer = build(p0, middle, out_edge)
+
+        def shape(g):
+            return (sorted(id(x) for x in g.nodes()), sorted((id(a), id(b)) for a in g.nodes() for b in g.dependencies(a)))
+        before = {k: shape(g) for k, g in (('outer', outer), ('middle', middle), ('inner', inner))}
+        bad = None
+        try:
+            with time_limit(5):
+                c = outer.copy()
+                c.flatten()
+        except Exception as e:      # noqa
+            bad = f'flatten of a copy raised {e!r}'
+        if bad is None:
+            plain = {id(x) for x in (r0, r1, q0, p0)}
+            if {id(x) for x in c.nodes()} != plain:
+                bad = f'the flattened copy holds {sorted(str(x) for x in c.nodes())}'
+            else:
+                want = set()
+                if inner_edge:
+                    want.add((id(r0), id(r1)))
+                if mid_edge:
+                    want |= {(id(q0), id(r0)), (id(q0), id(r1))}
+                if out_edge:
+                    want |= {(id(p0), id(q0)), (id(p0), id(r0)), (id(p0), id(r1))}
+                got = {(id(a), id(b)) for a in c.nodes() for b in c.dependencies(a, recurse=True)}
+                if not want <= got or any((b, a) in got for (a, b) in want):
+                    bad = 'the flattened copy lost an ordering constraint between plain nodes'
+        if bad is None:
+            after = {k: shape(g) for k, g in (('outer', outer), ('middle', middle), ('inner', inner))}
+            changed = [k for k in before if before[k] != after[k]]
+            if changed:
+                bad = f'flattening a copy modified the original graph(s): {changed} (copies share the nested graph objects)'
+        if bad:
+            fails.append({'input': {'nested_twice': True, 'inner_edge': inner_edge, 'middle_depends_on_inner': mid_edge, 'outer_depends_on_middle': out_edge}, 'observed': bad,
+                          'expected': 'copies and derived graphs are independent of the original'})
     return _fl(cnt, fails)
 
 
 def _fl(cnt, fails):
     return {'name': 'flatten-nested-graphs', 'evaluations': cnt, 'distinct': cnt, 'failures': fails, 'exhaustive': True,
             'bound': 'all outer DAGs with <= 3 items, each item a plain node or a nested graph of shape {empty, 1 node, 2 nodes, 2 nodes + edge}; '
-                     'reachability between plain nodes compared with the reference flattening', 'samples': [{'n': 3, 'edges': [[1, 0], [2, 1]], 'nested': [None, 0, None]}]}
+                     'reachability between plain nodes compared with the reference flattening; 8 graphs nested twice: a copy is flattened, the originals (outer, middle, inner) must stay as they were', 'samples': [{'n': 3, 'edges': [[1, 0], [2, 1]], 'nested': [None, 0, None]}]}
 
 
 def _flatten_one(n, edges, nested, inner_shapes):
